@@ -16,6 +16,7 @@
 #include <hgraph/types/value/value_builder.h>
 
 // shapes: 0 TSS<int>  1 TSD<int,TS<int>>  2 TSL<TS<int>> (dynamic)  3 TSB{a,b}  4 TSW<int,N,min>  5 TSD<int,TSS<int>>
+//         8 TSW<int, duration 10us>: one push per cycle at symbolic times
 //         6 TSS<int> over one key, 7 TSD<int,TS<int>> over one key: a prefix cycle, then NPRIM primitives on that key in one cycle
 #ifndef ONLY_SHAPE
 #define ONLY_SHAPE -1  // -1: the shape is enumerated (verif_choice); 0..4: only that shape (dev runs)
@@ -37,6 +38,9 @@
 #endif
 #ifndef TSS_LAST
 #define TSS_LAST NOPS  // operations in the last TSS cycle
+#endif
+#ifndef NCYC_TW
+#define NCYC_TW 6  // pushes into the duration-based window (>= 6 to wrap the 4-slot ring and then grow it)
 #endif
 #ifndef NPRIM
 #define NPRIM 3  // primitives on the single key of the one-key TSS / TSD shapes in their second cycle
@@ -105,10 +109,15 @@ using namespace hkts;
 #include "C05_delta_shape.inc"
 #undef SHAPE
 #undef SHAPE_NS
+#define SHAPE 8
+#define SHAPE_NS shape_tsw_time
+#include "C05_delta_shape.inc"
+#undef SHAPE
+#undef SHAPE_NS
 
 extern "C" int harness_main() {
     (void)schemas();  // concrete set-up shared by all shapes
-    int shape = ONLY_SHAPE >= 0 ? ONLY_SHAPE : verif_choice("shape", 8);
+    int shape = ONLY_SHAPE >= 0 ? ONLY_SHAPE : verif_choice("shape", 9);
     switch (shape) {
         case 0: shape_tss::g_reach.mark("shape_tss"); return shape_tss::run();
         case 1: shape_tsd::g_reach.mark("shape_tsd"); return shape_tsd::run();
@@ -117,6 +126,7 @@ extern "C" int harness_main() {
         case 4: shape_tsw::g_reach.mark("shape_tsw"); return shape_tsw::run();
         case 5: shape_tsd_tss::g_reach.mark("shape_tsd_tss"); return shape_tsd_tss::run();
         case 6: shape_tss_onekey::g_reach.mark("shape_tss_onekey"); return shape_tss_onekey::run();
-        default: shape_tsd_onekey::g_reach.mark("shape_tsd_onekey"); return shape_tsd_onekey::run();
+        case 7: shape_tsd_onekey::g_reach.mark("shape_tsd_onekey"); return shape_tsd_onekey::run();
+        default: shape_tsw_time::g_reach.mark("shape_tsw_time"); return shape_tsw_time::run();
     }
 }
